@@ -116,6 +116,9 @@ structure Disk where
   wm : Option Nat := none
   /-- `prune-watermark.tmp` exists (it is never read) -/
   tmp : Bool := false
+  /-- the previous content of `prune-watermark`, when the rename that replaced it has not been made
+  durable by a directory sync (the sync failed): a crash may bring it back -/
+  wmAlt : Option (Option Nat) := none
   deriving Repr, DecidableEq, Inhabited
 
 def Disk.setGarbage (d : Disk) (n : Nat) (g : Bool) : Disk :=
@@ -139,9 +142,11 @@ def insertFile (z : LogFile) : List LogFile → List LogFile
     else if z.num = f.num then f :: fs
     else f :: insertFile z fs
 
-/-- A crash: the unlinks that were not made durable may be undone, any subset of them. -/
-def Disk.resurrect (d : Disk) (mask : List Bool) : Disk :=
-  { d with files := (pick mask d.zombies).foldr insertFile d.files, zombies := [] }
+/-- A crash: the unlinks that were not made durable may be undone, any subset of them; with
+`alt` a watermark rename that was not made durable is undone as well. -/
+def Disk.resurrect (d : Disk) (mask : List Bool) (alt : Bool := false) : Disk :=
+  { d with files := (pick mask d.zombies).foldr insertFile d.files, zombies := [],
+           wm := if alt then d.wmAlt.getD d.wm else d.wm, wmAlt := none }
 
 /-! ### The store -/
 
@@ -157,6 +162,9 @@ structure Store where
   idx : Idx := {}
   pending : List Rec := []
   sinceCleanup : Nat := 0
+  /-- the logs Pebble's WAL manager knows (`initialObsolete` ++ `queue`): the only ones
+  `Manager.Obsolete` hands out for deletion -/
+  known : List Nat := []
   deriving Repr, DecidableEq
 
 inductive Outcome where
@@ -169,10 +177,16 @@ inductive Outcome where
   | openFailed        -- NewTendermintWALStore returned an error
   deriving DecidableEq, Repr
 
-/-- Injected failures. `append`: the write or the sync of the batch fails and the tail repair
-succeeds. `appendNoRepair`: the repair fails too. `watermark`: writing `prune-watermark.tmp` fails. -/
+/-- Injected failures.
+`append`: the write or the sync of the batch fails and the tail repair succeeds.
+`appendNoRepair`: the repair fails too.
+`watermark`: writing `prune-watermark.tmp` fails.
+`create`: `manager.Create` fails before the new log exists (only matters when no writer is open).
+`wmSync`: the directory sync after the watermark rename fails (the rename stays undurable).
+`rotate`: closing the writer in `rotateAfterSynced` fails (the tail repair succeeds).
+`unlink k`: in `cleanupObsoleteWALs` the removal of the `k`-th obsolete log (0-based) fails. -/
 inductive Fault where
-  | none | append | appendNoRepair | watermark
+  | none | append | appendNoRepair | watermark | create | wmSync | rotate | unlink (k : Nat)
   deriving DecidableEq, Repr
 
 /-- `SetWALEntry` (nil / unsupported entries, which return an error, are not modelled). -/
@@ -225,32 +239,57 @@ def ensureWriter (s : Store) (d : Disk) : Store × Disk × Disk :=
   match s.writer with
   | some _ => (s, d, d)
   | none =>
-    ({ s with writer := some s.nextWAL, nextWAL := s.nextWAL + 1 },
+    ({ s with writer := some s.nextWAL, nextWAL := s.nextWAL + 1, known := s.known ++ [s.nextWAL] },
      { d with files := d.files ++ [{ num := s.nextWAL }] },
-     { d with files := d.files ++ [{ num := s.nextWAL }], zombies := [] })
+     { d with files := d.files ++ [{ num := s.nextWAL }], zombies := [], wmAlt := none })
+
+/-- Of the obsolete logs `cand` (ascending), the ones that do get unlinked under the failure. -/
+def Fault.removable (ft : Fault) (cand : List LogFile) : List LogFile :=
+  match ft with
+  | .unlink k => cand.take k
+  | _ => cand
+
+/-- Does the part of the cleanup after the watermark write report an error? -/
+def Fault.cleanupFails (ft : Fault) (cand : List LogFile) : Bool :=
+  match ft with
+  | .rotate => true
+  | .unlink k => decide (k < cand.length)
+  | _ => false
 
 /-- The tail of `removeObsoleteWALFiles` once the interval is reached: `writePruneWatermark`
 (tmp, rename, directory sync), `rotateAfterSynced`, `cleanupObsoleteWALs`. `s` already has the
 batch indexed, `d` has it on disk in log `n`. -/
-def cleanup (s : Store) (d : Disk) (n : Nat) : OpRes :=
+def cleanup (s : Store) (d : Disk) (n : Nat) (ft : Fault) : OpRes :=
   let dTmp := { d with tmp := true }
-  let dRen := { d with wm := some s.idx.pruned, tmp := true }
-  let dRen' := { d with wm := some s.idx.pruned, tmp := false }
-  let dWm := { d with wm := some s.idx.pruned, tmp := false, zombies := [] }
-  -- rotateAfterSynced: the writer is closed (an EOF trailer is appended)
-  let dTrail := dWm.setGarbage n true
-  let s' := { s with writer := none }
-  let minLive := s'.minLive
-  let dead := dWm.files.filter (fun f => decide (f.num < minLive))
-  let dGc := { dWm with files := dWm.files.filter (fun f => !decide (f.num < minLive)), zombies := dead }
-  ⟨{ s' with sinceCleanup := 0 }, dGc, .ok,
-    [(dTmp, true), (dRen, true), (dRen', true), (dWm, true), (dTrail, true), (dGc, true)], dead⟩
+  let dRen := { d with wm := some s.idx.pruned, tmp := true, wmAlt := some d.wm }
+  let dRen' := { d with wm := some s.idx.pruned, tmp := false, wmAlt := some d.wm }
+  if ft = .wmSync then
+    -- syncDir fails: writePruneWatermark returns the error, nothing else happens
+    ⟨s, dRen', .errCommitted, [(dTmp, true), (dRen, true), (dRen', true)], []⟩
+  else
+    let dWm := { d with wm := some s.idx.pruned, tmp := false, zombies := [], wmAlt := none }
+    -- rotateAfterSynced: the writer is closed (an EOF trailer is appended; when that fails the
+    -- tail is cut back to the synced offset)
+    let dTrail := dWm.setGarbage n true
+    let s' := { s with writer := none }
+    -- cleanupObsoleteWALs: Manager.Obsolete hands out (and forgets) the known logs below the bound
+    let minLive := s'.minLive
+    let cand := dWm.files.filter (fun f => decide (f.num < minLive) && s.known.contains f.num)
+    let rm := (ft.removable cand).map (fun f => f.num)
+    let failed := ft.cleanupFails cand
+    let dGc := { dWm with files := dWm.files.filter (fun f => !rm.contains f.num),
+                          zombies := dWm.files.filter (fun f => rm.contains f.num) }
+    let s'' := { s' with known := s.known.filter (fun k => !decide (k < minLive)) }
+    ⟨if failed then s'' else { s'' with sinceCleanup := 0 }, dGc, if failed then .errCommitted else .ok,
+      [(dTmp, true), (dRen, true), (dRen', true), (dWm, true), (dTrail, true), (dWm, true), (dGc, true)],
+      dGc.zombies⟩
 
 /-- `flushLocked`. -/
 def flushLocked (s : Store) (d : Disk) (ft : Fault) : OpRes :=
   if s.closed then ⟨s, d, .closed, [(d, false)], []⟩
   else if s.pending.isEmpty then ⟨s, d, .ok, [(d, false)], []⟩
   else if s.repairRequired then ⟨s, d, .errNotCommitted, [(d, false)], []⟩
+  else if ft = .create && s.writer.isNone then ⟨s, d, .errNotCommitted, [(d, false)], []⟩
   else
     let n := s.writer.getD s.nextWAL
     let s1 := (ensureWriter s d).1
@@ -259,15 +298,14 @@ def flushLocked (s : Store) (d : Disk) (ft : Fault) : OpRes :=
     let bs1 := [(d, false), (dNew, false), (d1, false)]
     let dTorn := d1.setGarbage n true
     let dFull := d1.appendBatch n s.pending
-    match ft with
-    | .append =>
+    if ft = .append then
       -- abortUncommitted: close the writer, truncate back to the synced offset
       ⟨{ s1 with writer := none }, d1, .errNotCommitted,
         bs1 ++ [(dTorn, false), (dFull, true), (d1, false)], []⟩
-    | .appendNoRepair =>
+    else if ft = .appendNoRepair then
       ⟨{ s1 with writer := none, repairRequired := true }, dTorn, .errNotCommitted,
         bs1 ++ [(dTorn, false)], []⟩
-    | _ =>
+    else
       -- appended and synced; updateIndexesFromCommittedRecords
       let s2 := { s1 with idx := s1.idx.applyRecs n s.pending, pending := [] }
       let bs2 := bs1 ++ [(dTorn, false), (dFull, true)]
@@ -281,7 +319,7 @@ def flushLocked (s : Store) (d : Disk) (ft : Fault) : OpRes :=
           ⟨s3, { dFull with tmp := false }, .errCommitted,
             bs2 ++ [({ dFull with tmp := true }, true), ({ dFull with tmp := false }, true)], []⟩
         else
-          let r := cleanup s3 dFull n
+          let r := cleanup s3 dFull n ft
           { r with bases := bs2 ++ r.bases }
 
 def Outcome.committed : Outcome → Bool
@@ -323,7 +361,8 @@ def openStore (d : Disk) : Except OpenErr (Store × Disk) :=
   let files := clearLastGarbage d.files
   if files.any (·.garbage) then .error .corruptLog
   else
-    .ok ({ nextWAL := nextNum files, idx := replayFiles { pruned := d.wm.getD 0 } files },
+    .ok ({ nextWAL := nextNum files, idx := replayFiles { pruned := d.wm.getD 0 } files,
+           known := files.map (·.num) },
          { d with files := files })
 
 /-- What a restarted validator sees: `LoadAllEntries` after `NewTendermintWALStore`. -/
@@ -356,8 +395,9 @@ inductive Op where
   | flush (ft : Fault)
   | close (ft : Fault)
   | reopen
-  /-- crash while `c` runs, at its `i`-th durable state, resurrecting the zombies chosen by `mask` -/
-  | crash (c : COp) (i : Nat) (mask : List Bool)
+  /-- crash while `c` runs, at its `i`-th durable state, resurrecting the zombies chosen by `mask`
+  (and with `alt` undoing an undurable watermark rename) -/
+  | crash (c : COp) (i : Nat) (mask : List Bool) (alt : Bool)
   deriving DecidableEq, Repr
 
 /-- The durable states `c` passes through when started in `sys`. -/
@@ -375,7 +415,8 @@ def allMasks : Nat → List (List Bool)
 
 /-- All crash images of `c` started in `sys`. -/
 def Sys.images (sys : Sys) (c : COp) : List (Disk × Bool) :=
-  (sys.bases c).flatMap (fun b => (allMasks b.1.zombies.length).map (fun m => (b.1.resurrect m, b.2)))
+  (sys.bases c).flatMap (fun b => (allMasks b.1.zombies.length).flatMap
+    (fun m => [(b.1.resurrect m false, b.2), (b.1.resurrect m true, b.2)]))
 
 def Sys.step (sys : Sys) : Op → Sys × Outcome
   | .set h e =>
@@ -407,11 +448,11 @@ def Sys.step (sys : Sys) : Op → Sys × Outcome
     match openStore sys.disk with
     | .ok (s, d) => ({ sys with alive := true, st := s, disk := d, calls := [] }, .ok)
     | .error _ => ({ sys with alive := false }, .openFailed)
-  | .crash c i mask =>
+  | .crash c i mask alt =>
     match (sys.bases c)[i]? with
     | none => (sys, .bad)
     | some (b, infl) =>
-      ({ sys with alive := false, disk := b.resurrect mask,
+      ({ sys with alive := false, disk := b.resurrect mask alt,
                   acked := if infl then sys.acked ++ sys.calls else sys.acked,
                   calls := [] }, .ok)
 
